@@ -253,7 +253,7 @@ def check(model, rep, tier):
           isinstance(t.comparators[0], ast.Constant) and \
           t.comparators[0].value == 1 and lab == 'T':
         lens.append(core.norm(t.left.args[0]))
-    # the returned node is unpacked from that list
+    # the returned node is taken from that list: unpacked `(x, ..), = L`, or L[0]
     unpack = None
     v = r.value
     first = core.norm(v.args[0]) if isinstance(v, ast.Call) and v.args else None
@@ -262,6 +262,12 @@ def check(model, rep, tier):
           len(n.targets[0].elts) == 1 and first and first in core.norm(n.targets[0]):
         if g.node_of(n) is not None and g.node_of(n) in g.dominators().get(ri, ()):
           unpack = core.norm(n.value)
+    if unpack is None and isinstance(v, ast.Call):
+      subs = {core.norm(x.value) for a_ in v.args for x in ast.walk(a_)
+              if isinstance(x, ast.Subscript) and isinstance(x.slice, ast.Constant)
+              and x.slice.value in (0, -1) and isinstance(x.value, ast.Name)}
+      if len(subs) == 1:
+        unpack = subs.pop()
     ok = unpack is not None and unpack in lens and isinstance(v, ast.Call) and \
         core.dotted(v.func) == '_without_context'
     rep.check(ok, 'SRC-LAMBDA', '%s:return(%s)' % (pl.site, unpack or core.norm(v)[:40]),
@@ -441,7 +447,10 @@ def check(model, rep, tier):
   # recovery is a function of the function object: nothing on the path may keep
   # source text (or anything derived from it) in module-level state
   SAFE_CTORS = {'frozenset', 're.compile', 'threading.Lock', 'threading.RLock',
-                'tuple', 'str', 'int', 'len', 'object'}
+                'tuple', 'str', 'int', 'len', 'object',
+                # factories of immutable record types / constant callables
+                'collections.namedtuple', 'namedtuple', 'typing.NamedTuple',
+                'operator.attrgetter', 'operator.itemgetter', 'operator.methodcaller'}
   stateful = {}
   for rel in (PARSER, IU):
     m = model.module(rel)
